@@ -144,9 +144,10 @@ func TestC06(t *testing.T) {
 		serverLevel(t, r, dir)
 		auditFileAcrossRestarts(t, r, dir)
 		tornWrites(t, r, dir)
+		refusalBursts(t, r, dir)
 	}
 	r.Require("calls_with_one_record", "calls_with_no_record", "denied_calls_recorded", "unchanged_conditional_gets", "write_failures_injected", "sync_failures_injected",
-		"mutations_logged_before_effect", "concurrent_lines", "concurrent_durability_checks", "server_level_denials", "server_level_entitled_calls", "audit_file_reopens", "calls_after_a_torn_record")
+		"mutations_logged_before_effect", "concurrent_lines", "concurrent_durability_checks", "server_level_denials", "server_level_entitled_calls", "audit_file_reopens", "calls_after_a_torn_record", "refusals_in_bursts")
 	r.Rule("sequential: seeded histories of ~30 calls (all 9 operations, callers with random rule sets incl. none, names incl. empty and reserved); per call the records captured between invocation and return are compared with the expectation table; in a third of the histories the sink fails the Write or the Sync of one chosen record. Concurrent: 16 goroutines x mixed calls with unique (user, secret) pairs on a real audit file; every line must parse and the multiset of records must equal the expected one. Distinct = (operation, authorised?, records expected, failure injected)")
 }
 
@@ -809,5 +810,43 @@ func tornWrites(t *testing.T, r *evid.Run, dir string) {
 			}
 		}
 		r.Distinct(fmt.Sprintf("torn write keep-class=%d", min(snk.keep, 101)))
+	}
+}
+
+// refusalBursts: the same caller is refused the same request many times in a row (a retry loop, a probe):
+// every single refusal has its own record, the fortieth like the first.
+func refusalBursts(t *testing.T, r *evid.Run, dir string) {
+	snk := &sink{path: filepath.Join(dir, "bursts.db")}
+	d, err := db.Open(snk.path, realdb.DummyKey("c06b"), audit.New(snk))
+	if err != nil {
+		t.Fatal(err)
+	}
+	d.Put(realdb.Super(), "guarded", []byte("v"))
+	who := realdb.Caller("prober@verif", []refmodel.Rule{{Actions: []string{"info"}, Patterns: []string{"elsewhere/*"}}})
+	for _, op := range []ops.Op{{Kind: ops.Get, Name: "guarded"}, {Kind: ops.Put, Name: "guarded", Value: []byte("x")}, {Kind: ops.Delete, Name: "guarded"},
+		{Kind: ops.Act, Name: "guarded", Version: 1}, {Kind: ops.GetCond, Name: "guarded", Version: 1}, {Kind: ops.Info, Name: "guarded"}} {
+		for k := 0; k < 40; k++ {
+			mk := snk.mark()
+			res := ops.ApplyReal(d, who, op)
+			recs := snk.since(mk)
+			r.Eval(1)
+			r.Count("refusals_in_bursts", 1)
+			if res.Class != refmodel.Denied {
+				r.Violation("burst-refusal-not-denied", -1, fmt.Sprintf("refusal #%d of %s in a burst: %s", k+1, op, res), nil)
+				return
+			}
+			ok := false
+			for _, rc := range recs {
+				var e audit.Entry
+				if json.Unmarshal(rc.bytes, &e) == nil && !e.Authorized && string(e.Action) == op.Kind.Action() && e.Secret == op.Name && e.Principal.User == "prober@verif" && rc.syncs > 0 {
+					ok = true
+				}
+			}
+			if !ok {
+				r.Violation("denial-not-recorded", -1, fmt.Sprintf("the same caller was refused %s for the %dth time in a row: this refusal has no synced record of its own (%d records written during the call)", op, k+1, len(recs)), nil)
+				return
+			}
+		}
+		r.Distinct("burst of refusals " + string(op.Kind))
 	}
 }
